@@ -35,6 +35,11 @@ func (runInfo *runInfoStruct) invokeLetExpr() {
 	case *ast.DerefExpr:
 		runInfo.invokeLetDerefExpr(expr)
 
+	// a parenthesised place is the place
+	case *ast.ParenExpr:
+		runInfo.expr = expr.SubExpr
+		runInfo.invokeLetExpr()
+
 	default:
 		runInfo.err = newStringError(expr, "invalid operation")
 		runInfo.rv = nilValue
